@@ -28,7 +28,9 @@ func (core *JApiCore) compileCore() *jerr.JApiError {
 		return je
 	}
 
-	core.collectUserTypes()
+	if je := core.collectUserTypes(); je != nil {
+		return je
+	}
 
 	if je := core.compileUserTypes(); je != nil {
 		return je
@@ -88,13 +90,21 @@ func (core *JApiCore) findPaste(d *directive.Directive, walking, done map[string
 	return nil
 }
 
-func (core *JApiCore) collectUserTypes() {
+func (core *JApiCore) collectUserTypes() *jerr.JApiError {
 	for _, d := range core.directivesWithPastes {
-		// A second TYPE with a name already taken is reported where it stands when
-		// the catalog is built; it must not replace the first one while the types
-		// are compiled.
-		if d.Type() == directive.Type && !core.catalog.GetRawUserTypes().Has(d.NamedParameter("Name")) {
-			core.catalog.AddRawUserType(d)
+		if d.Type() != directive.Type {
+			continue
 		}
+		// A second TYPE with a name already taken is reported where it stands,
+		// before the first one is compiled with the schemas that use it.
+		name := d.NamedParameter("Name")
+		if core.catalog.GetRawUserTypes().Has(name) {
+			if name != "" {
+				return d.KeywordError(fmt.Sprintf("%s (%q)", jerr.DuplicateNames, name))
+			}
+			continue // a TYPE without a name is reported when the catalog is built
+		}
+		core.catalog.AddRawUserType(d)
 	}
+	return nil
 }
